@@ -223,16 +223,21 @@ def _diag_ens(A, k, alg_, r):
     return [("r = k-th diagonal of M(A)", r.term == want), ("length n-|k|", iterm(r.shape[0]) == n.term - ak)]
 
 
+def _stochastic(a):
+    return type(a).__name__ in ("Hutch", "HutchPP")
+
+
 diag = Contract(
     "diag",
-    requires=lambda A, k=0, alg_=None: [("square", square(A)), ("-n < k < n", z3.And(iterm(k) > -iterm(A.shape[0]), iterm(k) < iterm(A.shape[0])))],
+    requires=lambda A, k=0, alg_=None: [("square", square(A)), ("-n < k < n", z3.And(iterm(k) > -iterm(A.shape[0]), iterm(k) < iterm(A.shape[0]))),
+                                        ("exact algorithm requested (not a stochastic estimator)", not _stochastic(alg_))],
     result=_diag_res, ensures=_diag_ens,
     excused=(AssertionError,),   # "a structural rule either returns the same values ... or refuses the request with an error"
     props=("C08",))
 
 trace = Contract(
     "trace",
-    requires=lambda A, alg_=None: [("square", square(A))],
+    requires=lambda A, alg_=None: [("square", square(A)), ("exact algorithm requested (not a stochastic estimator)", not _stochastic(alg_))],
     result=lambda A, alg_=None: SScal(alg.trc_re(M(A)), alg.trc_im(M(A)) if is_cplx(A.dtype) else z3.RealVal(0), A.dtype),
     ensures=lambda A, alg_, r: [("r = tr(M(A))", z3.And(SScal.lift(r).re == alg.trc_re(M(A)),
                                                        SScal.lift(r).im == (alg.trc_im(M(A)) if is_cplx(A.dtype) else z3.RealVal(0))))],
@@ -292,7 +297,12 @@ def _unary(name, fterm_of):
 
     def req(*args):
         A = [x for x in args if is_op(x)][0]
-        return [("square", square(A))]
+        out = [("square", square(A))]
+        if name in ("pow", "isqrt", "log"):
+            neg = name != "pow" or float(args[1]) < 0
+            if neg:
+                out.append(("spectrum inside the domain: non-singular", alg.invok(M(A))))
+        return out
     return Contract(name, requires=req, result=res, ensures=ens, excused=(AssertionError,), props=("C09",))
 
 
